@@ -33,6 +33,7 @@ DECIDING = {
     "lookups_of_existing": "lookups of existing resources (must be silent)",
     "generations": "first generations (exactly one event on the requester)",
     "generations_in_child_context": "generation in a child (parent must stay silent)",
+    "race_cases_with_overlap": "concurrent lookups of one factory (exactly one generation event)",
 }
 ASSUMPTIONS = [
     "for a generated resource both the factory's declared types and the types actually registered in that context are accepted as 'the registered types'",
@@ -46,7 +47,7 @@ def plan(tier: str) -> dict[str, Any]:
 
 def gen_case(idx: int, seed: int, tier: str) -> Any:
     return {"seed": f"{seed}:{idx}", "want_sample": idx % 97 == 0, "over": {"p_invalid": 0.1, "p_bad_name": 0.05},
-            "weights": {"construct": 10, "enter": 5, "leave": 4, "add_resource": 28, "add_factory": 18, "lookup": 38, "race": 2}}
+            "weights": {"construct": 10, "enter": 5, "leave": 4, "add_resource": 28, "add_factory": 18, "lookup": 34, "race": 8}}
 
 
 def run_case(case: Any) -> dict[str, Any]:
